@@ -61,4 +61,4 @@ Proof. exact g_ls_parse_eq. Qed.
 Theorem c12_translated_parse_is_spec : forall s : list N,
   spec_ls s <> LsOpen ->
   g_ls_parse s = Some (match spec_ls s with LsStyle st => Some st | _ => None end).
-Proof. exact g_ls_parse_is_spec. Qed.
+Proof. intros s H. rewrite g_ls_parse_eq. exact (ls_model_is_spec s H). Qed.
